@@ -763,6 +763,9 @@ def declare_receiver(w):
                 z3.PrefixOf(fn0, fn2), z3.PrefixOf(ar0, ar2), slen(fn2) == slen(ar2),
                 # registered for later items exactly if the channel is still open and no ENDMARKER was queued - and only after the whole backlog went out
                 z3.Implies(has_cb(h2, f_, i), z3.And(cb_fn(h2, f_, i) == a.callback, cb_end(h2, f_, i) == a.endmarker,
+                                                     # the record keeps the CHANNEL's own coercion pair: it is all that is left of a reconfigure() once the object is collected (C12)
+                                                     z3.Select(cbs(h2, f_).v[1][2], i) == h.sv("Channel", c, "_strconfig").v[0].v,
+                                                     z3.Select(cbs(h2, f_).v[1][3], i) == h.sv("Channel", c, "_strconfig").v[1].v,
                                                      z3.Not(z3.Contains(content, z3.Unit(ENDM))), nofn == slen(content))),
                 z3.Implies(z3.And(z3.Not(z3.Contains(content, z3.Unit(ENDM))), z3.Not(C(h, c, "_closed")), z3.Not(ev_set(h, C(h, c, "_receiveclosed")))), has_cb(h2, f_, i))]
 
@@ -844,6 +847,17 @@ def declare_finish(w):
             raise Unsupported(f"list({v.ty!r})")
 
     w.externals["builtins.list"] = b_list
+
+    def iter_map(ex, it, st):
+        # `for id in d:` over an int-keyed dict: the keys in the order list(d) would give them; the engine checks after every iteration that the body left the key set alone
+        if it.ty.key != INT:
+            raise Unsupported(f"iteration over {it.ty!r}")
+        ks = keys_seq(it.v[0])
+        elem = lambda i: SV(INT, ks[i])
+        elem.seq = ks
+        return z3.Length(ks), elem
+
+    w.call_hooks[("iter", "map")] = iter_map
     J = z3.Int("Jf")   # an arbitrary fixed channel id
 
     def closed_effects(h0, h, f_, j):
@@ -870,7 +884,7 @@ def declare_finish(w):
 
     def inv1(L):
         f_ = L.inp("self")
-        sn = L.iterable.v
+        sn = L.iterable.v if L.iterable.ty.kind == "seq" else keys_seq(L.iterable.v[0])    # `for id in d` iterates the same keys as list(d)
         pos = z3.IndexOf(sn, z3.Unit(J), 0)
         return [("params", L.self == f_), ("finished-set", F(L.h, f_, "finished")),
                 ("snapshot", sn == keys_seq(chans(L.old, f_).v[0])),
@@ -894,7 +908,7 @@ def declare_finish(w):
 
     def inv2(L):
         f_ = L.inp("self")
-        sn = L.iterable.v
+        sn = L.iterable.v if L.iterable.ty.kind == "seq" else keys_seq(L.iterable.v[0])    # `for id in d` iterates the same keys as list(d)
         pos = z3.IndexOf(sn, z3.Unit(J), 0)
         return [("params", L.self == f_), ("finished-set", F(L.h, f_, "finished")),
                 ("no-channel-left", z3.Not(registered(L.h, f_, J))),
@@ -1127,4 +1141,72 @@ def declare_receiver_thread(w):
                         havoc_fields=["Channel._remoteerrors", "Channel._closed", "Channel._strconfig", "Queue.$content", "Event.$set", "Message.msgcode", "Message.channelid", "Message.data"],
                         props=["C04", "C02"]))
     w.loops[(f"{GB}:BaseGateway._thread_receiver", 0)].invariant_assume = lambda L: [f for n, f in w.fac_wf_all(L.h, G(L.old, L.inp("self"), "_channelfactory")) if n != "has-gateway"]
+    return w
+
+
+# ---------------------------------------------------------------------------------------------------------------------------------
+# world `mr`: Message.received as a decision table - which handler runs for which frame, with which arguments
+# ---------------------------------------------------------------------------------------------------------------------------------
+hc = z3.Function("hc", z3.IntSort(), z3.IntSort(), z3.StringSort(), z3.BoolSort(), z3.BoolSort(), z3.StringSort(), U)   # (what, channel id, payload, sendonly, has error, error text)
+K_RECV, K_CLOSE, K_NEW, K_EXEC, K_STATUS = 1, 2, 3, 4, 5
+M_STATUS, M_RECONFIGURE, M_TERMINATE_, M_EXEC, M_DATA, M_CLOSE, M_CLOSE_ERROR, M_LAST = range(8)
+
+
+def declare_dispatch(w):
+    """The channel world, with the callees of the message handlers extended by a history variable ($hcalls on the gateway).  Message.received is then verified against
+    the protocol's decision table: a frame of type T for channel id with payload p runs exactly the calls the protocol prescribes for T, with exactly those arguments
+    (in particular: which string coercion pair decodes a payload, and whether a close is a half close)."""
+    from .base import with_history
+
+    declare(w)
+    s = w.schema
+    s.declare("BaseGateway", "$hcalls", SEQ(ANY), ghost=True)
+    G = lambda h, g, n: h("BaseGateway", g, n)
+    M = lambda h, m, f: h("Message", m, f)
+    gw_of = w.chan_helpers["gw_of"]
+    chan_of = w.chan_helpers["chan_of"]
+    E = z3.StringVal("")
+    F_, T_ = z3.BoolVal(False), z3.BoolVal(True)
+    u2cfg1 = z3.Function("u2cfg1", U, z3.BoolSort())
+    u2cfg2 = z3.Function("u2cfg2", U, z3.BoolSort())
+    fac_cell = lambda a, h: ("BaseGateway", gw_of(h, a.self), "$hcalls")
+    with_history(w, f"{GB}:ChannelFactory._local_receive", fac_cell, lambda a, h: hc(z3.IntVal(K_RECV), a.id, a.data, F_, F_, E))
+    with_history(w, f"{GB}:ChannelFactory._local_close", fac_cell,
+                 lambda a, h: hc(z3.IntVal(K_CLOSE), a.id, E, a.sendonly, a.remoteerror != 0, z3.If(a.remoteerror != 0, h("RemoteError", a.remoteerror, "formatted"), E)))
+    with_history(w, f"{GB}:ChannelFactory.new", fac_cell, lambda a, h: hc(z3.IntVal(K_NEW), z3.If(a.sv("id").v[0], -1, a.sv("id").v[1].v), E, F_, F_, E))
+    with_history(w, f"{GB}:BaseGateway._local_schedulexec", lambda a, h: ("BaseGateway", a.self, "$hcalls"), lambda a, h: hc(z3.IntVal(K_EXEC), h("Channel", a.channel, "id"), a.sourcetask, F_, F_, E))
+    with_history(w, f"{GB}:Message._status", lambda a, h: ("BaseGateway", a.gateway, "$hcalls"), lambda a, h: hc(z3.IntVal(K_STATUS), h("Message", a.message, "channelid"), E, F_, F_, E))
+
+    real = w.contracts[f"{GB}:Message.received"]
+
+    def table(a, h, h2):
+        g = a.gateway
+        code, cid, data = M(h, a.self, "msgcode"), M(h, a.self, "channelid"), M(h, a.self, "data")
+        H0, H2 = G(h, g, "$hcalls"), G(h2, g, "$hcalls")
+        gcfg = h.sv("BaseGateway", g, "_strconfig")
+        one = lambda e: H2 == z3.Concat(H0, z3.Unit(e))
+        cfg_item = decode_item(data, gcfg.v[0].v, gcfg.v[1].v)          # RECONFIGURE payloads are decoded with the gateway's own pair
+        newcfg = (u2cfg1(cfg_item), u2cfg2(cfg_item))
+        g2cfg = h2.sv("BaseGateway", g, "_strconfig")
+        ch2 = chan_of(h2, G(h, g, "_channelfactory"), cid)
+        c2cfg = h2.sv("Channel", ch2, "_strconfig")
+        errtext = u2err(decode_item(data, T_, F_))                     # an error text is always decoded with the class defaults, whatever the gateway is configured to
+        return [
+            z3.Implies(code == M_STATUS, one(hc(z3.IntVal(K_STATUS), cid, E, F_, F_, E))),
+            z3.Implies(z3.And(code == M_RECONFIGURE, cid == 0), z3.And(H2 == H0, g2cfg.v[0].v == newcfg[0], g2cfg.v[1].v == newcfg[1])),
+            z3.Implies(z3.And(code == M_RECONFIGURE, cid != 0), z3.And(one(hc(z3.IntVal(K_NEW), cid, E, F_, F_, E)), c2cfg.v[0].v == newcfg[0], c2cfg.v[1].v == newcfg[1],
+                                                                      core.eq_sv(g2cfg, gcfg))),
+            z3.Implies(code == M_EXEC, H2 == z3.Concat(H0, z3.Unit(hc(z3.IntVal(K_NEW), cid, E, F_, F_, E)), z3.Unit(hc(z3.IntVal(K_EXEC), cid, data, F_, F_, E)))),
+            z3.Implies(code == M_DATA, one(hc(z3.IntVal(K_RECV), cid, data, F_, F_, E))),
+            z3.Implies(code == M_CLOSE, one(hc(z3.IntVal(K_CLOSE), cid, E, F_, F_, E))),                       # a full close, no error
+            z3.Implies(code == M_CLOSE_ERROR, one(hc(z3.IntVal(K_CLOSE), cid, E, F_, T_, errtext))),           # a full close carrying the peer's error text
+            z3.Implies(code == M_LAST, one(hc(z3.IntVal(K_CLOSE), cid, E, T_, F_, E))),                        # half close: this side may still send
+            z3.Implies(z3.And(code != M_RECONFIGURE), core.eq_sv(g2cfg, gcfg)),
+        ]
+
+    for cs in real.cases:
+        if cs.kind == "return":
+            cs.post = (lambda old: lambda a, h, h2, r: list(old(a, h, h2, r)) + table(a, h, h2))(cs.post)
+    real.modifies = (lambda old: lambda a, h: list(old(a, h)) + [("BaseGateway", a.gateway, "$hcalls")])(real.modifies)
+    real.split_post = True
     return w
